@@ -611,35 +611,31 @@ func checkDebExtras(c *Ctx, r *Report, pa *provAnalysis) {
 	var at ssa.Instruction
 	for _, fn := range sortedFuncs(c, reach) {
 		forEachInstr(fn, func(in ssa.Instruction) {
-			ia, ok := in.(*ssa.IndexAddr)
-			if !ok {
+			al, ok := in.(*ssa.Alloc)
+			if !ok || !arrayOfStruct(al) {
 				return
 			}
-			var dir string
-			var names provSet
-			for _, ref := range *ia.Referrers() {
-				fa, ok := ref.(*ssa.FieldAddr)
-				if !ok {
-					continue
-				}
-				for _, r2 := range *fa.Referrers() {
-					st, ok := r2.(*ssa.Store)
-					if !ok {
+			// rows of a literal table: one constant string (the directive) and
+			// one value fed from a trigger list, whatever the fields are called
+			for _, row := range tableRows(al, nil) {
+				dir := ""
+				var names provSet
+				for _, v := range row {
+					if k, isK := v.(*ssa.Const); isK && constOrEmpty(k) != "" {
+						dir = constOrEmpty(k)
 						continue
 					}
-					switch fieldName(fa.X.Type(), fa.Field) {
-					case "Directive":
-						if k, ok := st.Val.(*ssa.Const); ok {
-							dir = constString(k)
+					p := pa.Of(v)
+					for _, a := range infoAtoms(p) {
+						if strings.Contains(a, "Deb.Triggers.") {
+							names = p
 						}
-					case "TriggerNames":
-						names = pa.Of(st.Val)
 					}
 				}
-			}
-			if dir != "" && names != nil {
-				rows[dir] = infoAtoms(names)
-				at = in
+				if dir != "" && names != nil {
+					rows[dir] = infoAtoms(names)
+					at = in
+				}
 			}
 		})
 	}
@@ -899,6 +895,9 @@ func mustProv(c *Ctx, fr *Frame, v ssa.Value, bind map[*ssa.Parameter]provSet, d
 	case *ssa.BinOp:
 		return union(x.X, x.Y)
 	case *ssa.Phi:
+		if out, ok := tableLoopMustProv(c, fr, x, bind, depth, seen); ok {
+			return out
+		}
 		var sets []provSet
 		blk := x.Block()
 		for i, e := range x.Edges {
@@ -934,6 +933,27 @@ func mustProv(c *Ctx, fr *Frame, v ssa.Value, bind map[*ssa.Parameter]provSet, d
 	case *ssa.Call:
 		if _, isB := x.Call.Value.(*ssa.Builtin); isB {
 			return union(x.Call.Args...)
+		}
+		// the text accumulated in a local strings.Builder / bytes.Buffer: what
+		// was written to it in live blocks that dominate this read
+		if o := calleeObj(x); o != nil && o.Name() == "String" && len(x.Call.Args) == 1 {
+			if b := allocOf(x.Call.Args[0]); b != nil && (isNamed(derefType(b.Type()), "strings", "Builder") || isNamed(derefType(b.Type()), "bytes", "Buffer")) {
+				out := provSet{}
+				for _, ref := range *b.Referrers() {
+					w, ok := ref.(*ssa.Call)
+					if !ok || len(w.Call.Args) < 2 || w.Call.Args[0] != ssa.Value(b) {
+						continue
+					}
+					if wo := calleeObj(w); wo == nil || !strings.HasPrefix(wo.Name(), "Write") {
+						continue
+					}
+					if !fr.Live(w.Block()) || !(w.Block() == x.Block() && instrIndex(w) < instrIndex(x) || w.Block() != x.Block() && fr.liveMustPass(w.Block(), x.Block())) {
+						continue
+					}
+					out.add(mustProv(c, fr, w.Call.Args[1], bind, depth+1, seen))
+				}
+				return out
+			}
 		}
 		if child := fr.childFrame(x); child != nil {
 			nb := map[*ssa.Parameter]provSet{}
@@ -1559,4 +1579,115 @@ func isStringEmptinessTest(v ssa.Value) bool {
 		}
 	}
 	return false
+}
+
+// tableLoopMustProv: a value carried around a loop over a literal table
+// ({"~", info.Prerelease}, {"+", info.VersionMetadata}, ...): every row is
+// visited, so what the value must depend on is what it depended on before the
+// loop plus, for each row, what one iteration adds under that row's values
+// (the iteration is re-evaluated with the loop element's fields bound to the
+// row).
+func tableLoopMustProv(c *Ctx, fr *Frame, x *ssa.Phi, bind map[*ssa.Parameter]provSet, depth int, seen map[ssa.Value]bool) (provSet, bool) {
+	h := x.Block()
+	var elem *ssa.IndexAddr
+	var arr *ssa.Alloc
+	forEachInstr(fr.Fn, func(in ssa.Instruction) {
+		ia, ok := in.(*ssa.IndexAddr)
+		if !ok || elem != nil {
+			return
+		}
+		inc, ok := ia.Index.(*ssa.BinOp)
+		if !ok {
+			return
+		}
+		iphi, ok := inc.X.(*ssa.Phi)
+		if !ok || iphi.Block() != h {
+			return
+		}
+		if a, _ := fullRangeOver(ia, ia); a != nil {
+			elem, arr = ia, a
+		}
+	})
+	if elem == nil {
+		return nil, false
+	}
+	rows := tableRows(arr, elem)
+	if len(rows) == 0 {
+		return nil, false
+	}
+	out := provSet{}
+	var inner []ssa.Value
+	for i, e := range x.Edges {
+		p := h.Preds[i]
+		if h.Dominates(p) {
+			inner = append(inner, e)
+		} else {
+			out.add(mustProv(c, fr, e, bind, depth+1, seen))
+		}
+	}
+	for _, row := range rows {
+		ev := newEvaluator(c)
+		ev.Defaults = fr.ev.Defaults
+		ev.MaxDepth = fr.ev.MaxDepth
+		ev.Bind = map[ssa.Value]AV{}
+		forEachInstr(fr.Fn, func(in ssa.Instruction) {
+			v, ok := in.(ssa.Value)
+			if !ok {
+				return
+			}
+			if ia, f, ok := loopElemField(v); ok && ia == elem && row[f] != nil {
+				if av := fr.Eval(row[f]); av != nil {
+					ev.Bind[v] = av
+				}
+			}
+		})
+		fr2 := ev.Explore(fr.Fn, fr.Params)
+		if fr2 == nil {
+			continue
+		}
+		// one iteration for this row: row fields read through the element
+		// stand for the row's values
+		rb := rowSubst{elem: elem, row: row}
+		for _, e := range inner {
+			out.add(mustProvRow(c, fr2, e, bind, depth+1, seen, rb))
+		}
+	}
+	return out, true
+}
+
+type rowSubst struct {
+	elem *ssa.IndexAddr
+	row  map[string]ssa.Value
+}
+
+// mustProvRow is mustProv with reads of the loop element's fields replaced by
+// the row's stored values.
+func mustProvRow(c *Ctx, fr *Frame, v ssa.Value, bind map[*ssa.Parameter]provSet, depth int, seen map[ssa.Value]bool, rb rowSubst) provSet {
+	if v == nil || depth > 14 || seen[v] {
+		return provSet{}
+	}
+	if ia, f, ok := loopElemField(v); ok && ia == rb.elem && rb.row[f] != nil {
+		return mustProv(c, fr, rb.row[f], bind, depth+1, map[ssa.Value]bool{})
+	}
+	switch x := v.(type) {
+	case *ssa.BinOp:
+		out := mustProvRow(c, fr, x.X, bind, depth+1, seen, rb)
+		out.add(mustProvRow(c, fr, x.Y, bind, depth+1, seen, rb))
+		return out
+	case *ssa.Phi:
+		seen[v] = true
+		defer delete(seen, v)
+		var sets []provSet
+		blk := x.Block()
+		for i, e := range x.Edges {
+			if !fr.liveEdge[[2]int{blk.Preds[i].Index, blk.Index}] {
+				continue
+			}
+			sets = append(sets, mustProvRow(c, fr, e, bind, depth+1, seen, rb))
+		}
+		return intersect(sets)
+	case *ssa.Convert:
+		return mustProvRow(c, fr, x.X, bind, depth+1, seen, rb)
+	}
+	return mustProv(c, fr, v, bind, depth, seen)
 }
